@@ -33,9 +33,7 @@ DiagramsVerdict(c) ==
      ELSE IF hasinf /\ c.inflines = 0 THEN <<"fail", "no-infinity-line-drawn", 0>>
      ELSE IF c.hasrange = 0 /\ finx # {} /\ ~(c.xlim[1] <= Min(finx) /\ Max(finx) <= c.xlim[2]) THEN <<"fail", "x-limits-do-not-contain-points", 0>>
      ELSE IF c.hasrange = 0 /\ finy # {} /\ ~(c.ylim[1] <= Min(finy) /\ Max(finy) <= c.ylim[2]) THEN <<"fail", "y-limits-do-not-contain-points", 0>>
-     ELSE IF c.hasrange = 1 /\ ~(c.xlim[1] = c.q * c.range[1] /\ c.xlim[2] = c.q * c.range[2]) THEN <<"fail", "requested-x-range-not-applied", 0>>
-     ELSE IF c.hasrange = 1 /\ c.lifetime = 0 /\ ~(c.ylim[1] = c.q * c.range[3] /\ c.ylim[2] = c.q * c.range[4]) THEN <<"fail", "requested-y-range-not-applied", 0>>
-     ELSE IF c.xlabel # "Birth" \/ c.ylabel # (IF c.lifetime = 1 THEN "Lifetime" ELSE "Death") THEN <<"fail", "axis-labels", 0>>
+     \* (what happens to the limits under an explicit xy_range, and the default axis-label texts, are not prescribed by the property)
      ELSE IF c.stitle # c.title THEN <<"fail", "title", 0>>
      ELSE IF c.haslegend # c.legend THEN <<"fail", "legend-presence", 0>>
      \* legend texts are only prescribed when the caller passed labels (the default label text is not part of the property)
